@@ -61,10 +61,18 @@ StripPtr(t) == IF t.k = "ptr" THEN StripPtr(t.e) ELSE t
 (* have: with component export the generator gives all of them the component name "".      *)
 (* That is a listed finding with its own witness; the export option sets are enumerated    *)
 (* over the types in which every struct that becomes a component is a declared one.        *)
+(* The tng option sets add openapi3gen.CreateTypeNameGenerator with a caller-supplied function whose *)
+(* result differs from reflect.Type.Name() (GoSchema!TypeNameOf: the prefix "T_"): alone, and       *)
+(* combined with component export without / with ExportTopLevelSchema.  Names only matter for        *)
+(* declared types, so these sets are enumerated over the types that reach one (the recursive         *)
+(* families and non-recursive nested declared structs).                                              *)
+Plain(o) == CASE o = "tng" -> "default" [] o = "tng_export" -> "export" [] o = "tng_exporttop" -> "exporttop"
+              [] OTHER -> o
 OptOK ==
-   CASE opt \in {"default", "useall"} -> TRUE
-     [] opt \in {"export", "useall_export"} -> AnonStructs(T, TRUE) = 0
-     [] opt = "exporttop" -> AnonStructs(T, TRUE) = 0 /\ StripPtr(T).k # "struct"
+   /\ opt \in {"tng", "tng_export", "tng_exporttop"} => ReachNames(T) # {}
+   /\ CASE Plain(opt) \in {"default", "useall"} -> TRUE
+        [] Plain(opt) \in {"export", "useall_export"} -> AnonStructs(T, TRUE) = 0
+        [] Plain(opt) = "exporttop" -> AnonStructs(T, TRUE) = 0 /\ StripPtr(T).k # "struct"
 
 Emit == OptOK => CSVWrite("%1$s", <<ToJson([T |-> T, opt |-> opt, vals |-> GoVals(T)])>>, "cases.ndjson")
 
